@@ -24,7 +24,8 @@ LEVEL = 'model_checking'
 ENGINE = 'E2 small-scope enumeration of tables x wrapper arguments; row oracle = the wrapped table, byte oracle = to*'
 RULE = ('state = (table, wrapper, arguments, target kind, pass pattern). Tables: header + 0..3 rows whose cells '
         'range over None, int, float, text, non-ASCII text, text with delimiter/quote/newline, empty text; rows '
-        'of every length 0..width+1 (ragged, empty, over-long), header-only tables; rows given as tuples or lists. '
+        'of every length 0..width+1 (ragged, empty, over-long), header-only tables; rows given as tuples or lists; '
+        'header fields that are not text (int, float, None, bool): the header must come through type-faithfully too. '
         'tee*: every table x write_header / encoding / dialect / template, prologue, epilogue / caption, '
         'index_header, truncate, lineterminator, tr_style, td_styles / pickle protocol; target kinds: all four for the '
         'plain configurations (encoding x write_header, default template), MemorySource (+ .gz in thorough) for the '
@@ -109,7 +110,16 @@ def tables(seed, tier):
     out += [((f,),), ((f,), (C[3],)), ((f,), (), (C[1], 'L'))]
     out += [((f, 'k', 'm'), (C[1], C[2], C[3])), ((f, 'k', 'm'), (C[4],), (None, None, None, 'L'))]
     out += [([f, 'k'], [C[1], C[2]], [C[3]])]
+    # header fields that are not text: the wrapper must hand on the wrapped table's header objects
+    for h in nontext_headers(seed):
+        out += [(h,), (h, (C[1], C[2])), (h, (C[3],), (None, C[4], 'L')), (h, (), (C[2], C[2]))]
     return out
+
+
+def nontext_headers(seed):
+    r = spaces.reps(seed)
+    f = ['x', 'y', 'z', 'w'][seed % 4]
+    return [(r['i1'], None), (2.5, 'k'), (None, f), (0, r['i2']), (f, r['i1']), (True, None)]
 
 
 def pass_tables(seed):
@@ -123,6 +133,8 @@ def pass_tables(seed):
         for rs in itertools.permutations(pool, n):
             out.append((hdr,) + rs)
     out.append(([f],))
+    for h in nontext_headers(seed):
+        out += [(h,), (h, pool[0]), (h, pool[1], pool[3])]
     out.append(((),))
     out.append(((), (), ()))
     return out
@@ -148,8 +160,10 @@ def csv_cfgs(tier):
 
 
 def text_cfgs(tier, hdr):
-    t1 = '{%s}|{%s}\n' % (hdr[0], hdr[1]) if len(hdr) > 1 else '{%s}\n' % hdr[0]
-    t2 = '<{%s}>' % hdr[-1]
+    # str.format can only name fields whose text is an identifier ('{1}' / '{2.5}' are positional lookups)
+    usable = [str(h) for h in hdr if str(h).isidentifier()]
+    t1 = ''.join('{%s}|' % n for n in usable) + '\n'
+    t2 = '<{%s}>' % usable[-1] if usable else '<row>'
     out = []
     for tpl in (t1, t2):
         for pro, epi in ((None, None), ('P\xe9\n', 'E\n'), ('P', None), (None, 'E')):
